@@ -76,13 +76,19 @@ TraceLog ==
    /\ IsEv("Log") /\ oLogs' = Append(oLogs, Line.msg)
    /\ UNCHANGED <<vars, caseIdx, cScript, oRaw, oErrs, oInvoked, oScript, oEnd, diverged>>
 
+(* the handler behind the OTHER wrapper of the same ValidationHandler ran: consumed here; the run then fails *)
+(* "handler_iff_valid" (the handler under test was not entered) and the passthrough clause                    *)
+TraceOther ==
+   /\ IsEv("Other")
+   /\ UNCHANGED <<vars, caseIdx, cScript, oRaw, oErrs, oLogs, oInvoked, oScript, oEnd, diverged>>
+
 TraceEnd ==
    /\ IsEv("end")
    /\ Follow(Gate \/ RespCheckFrom("handler"))       \* the silent epilogue
    /\ oEnd' = Line
    /\ UNCHANGED <<caseIdx, cScript, oRaw, oErrs, oLogs, oInvoked, oScript>>
 
-TraceNext == TraceReset \/ TraceEnter \/ TraceHandlerCall \/ TraceClient \/ TraceErr \/ TraceLog \/ TraceEnd
+TraceNext == TraceReset \/ TraceEnter \/ TraceHandlerCall \/ TraceClient \/ TraceErr \/ TraceLog \/ TraceOther \/ TraceEnd
 
 TraceSpec == TraceInit /\ [][TraceNext]_<<vars, tvars>>
 
@@ -107,7 +113,7 @@ Judge ==
 
 Fidelity ==
    (oEnd # <<>> /\ RunFailed = {}) =>
-      \/ (cfg.gate = "vhandler" /\ cfg.reqClass \notin ValidClasses)        \* the encoder's body is not modelled
+      \/ (IsVH(cfg) /\ cfg.reqClass \notin ValidClasses)        \* the encoder's body is not modelled
       \/ (~diverged /\ cOut = oRaw /\ (cfg.errMode = "custom" => errs = oErrs) /\ logs = oLogs)
       \/ CSVWrite("%1$s", <<ToJson([case |-> caseIdx, diverged |-> diverged, model |-> cOut,
                                      observed |-> oRaw, mlogs |-> logs, ologs |-> oLogs])>>,
